@@ -59,3 +59,12 @@ Theorem C07_text_canonical_silent_core2 :
     exists warns, parse_model cls numcanon holo_ok strict (lines_of (emit sp d)) = PRDoc d [] warns /\
                   Forall (fun w => wsub w = 5%N \/ wsub w = 9%N) warns.
 Proof. exact text_roundtrip_core2. Qed.
+
+From OV Require Rt.BareWordParse Rt.BareWordLex Rt.BareWord Rt.BareWordEx.
+(* canonical text with bare string values (core3) is silent too: no repair, only advisory warnings *)
+Theorem C07_text_canonical_silent_core3 :
+  forall cls numcanon holo_ok strict sp d,
+    BareWordParse.core3_doc d = true -> BareWord.lex_safe3_doc d = true ->
+    TokRound2.nums_ok2_l numcanon TokRound2Ex.ex_idnum (dsections d) -> Forall (TokRound2.field_num_ok numcanon) (dmeta d) ->
+    exists warns, parse_model cls numcanon holo_ok strict (lines_of (emit sp d)) = PRDoc d [] warns /\ Forall advisory warns.
+Proof. exact BareWord.text_roundtrip_core3. Qed.
